@@ -312,3 +312,204 @@ def _size(b):
     W, H, rows = b[0], b[1], b[2]
     return (sum(r[2] for r in rows), W * H, len(b[3]) if len(b) > 3
             and isinstance(b[3], list) else 0)
+
+
+OBJ_NAMES = ["binCount", "binCountAndLastEmpty", "binCountAndEmpty",
+             "binCountAndLastSmall", "binCountAndSmall",
+             "binCountAndLastSkyline", "binCountAndLowestSkyline"]
+_GEN = {}
+
+
+def gen_drivers():
+    """The explicit-state packing generator + objective comparison."""
+    if _GEN:
+        return _GEN
+    import numba
+    from mc.jit import compile_module
+    from moptipyapps.binpacking2d.objectives.bin_count_and_empty import (
+        bin_count_and_empty,
+    )
+    from moptipyapps.binpacking2d.objectives.bin_count_and_last_empty import (
+        bin_count_and_last_empty,
+    )
+    from moptipyapps.binpacking2d.objectives.bin_count_and_last_skyline \
+        import bin_count_and_last_skyline
+    from moptipyapps.binpacking2d.objectives.bin_count_and_last_small import (
+        bin_count_and_last_small,
+    )
+    from moptipyapps.binpacking2d.objectives.bin_count_and_lowest_skyline \
+        import bin_count_and_lowest_skyline
+    from moptipyapps.binpacking2d.objectives.bin_count_and_small import (
+        bin_count_and_small,
+    )
+    ns = compile_module(P, ["objective_models"])
+    omodel = ns["objective_models"]
+
+    @numba.njit(cache=False)
+    def eval_real(y, W, H, tmp_e, tmp_s, got):
+        got[0] = y[:, 1].max()
+        got[1] = bin_count_and_last_empty(y)
+        got[2] = bin_count_and_empty(y, tmp_e)
+        got[3] = bin_count_and_last_small(y, W * H)
+        got[4] = bin_count_and_small(y, W * H, tmp_s)
+        got[5] = bin_count_and_last_skyline(y, W, H)
+        got[6] = bin_count_and_lowest_skyline(y, W, H)
+
+    @numba.njit(cache=False)
+    def gen_packings(inst64, W, H, seq, y, y2, tmp_e, tmp_s, mins, maxs,
+                     res, store, bad):
+        """
+        Enumerate every feasible packing of the instance.
+
+        seq: item type (0-based) per row; y/y2: arrays in the real dtype.
+        res: 0 leaves, 1 evaluations, 2 mismatches, 3 stored, 4 row-order
+        disagreements, 5 first bad objective, 6 got, 7 expected,
+        8 raw nodes
+        mins/maxs: (7, n + 1) per objective and bin count.
+        """
+        n = seq.shape[0]
+        WH = W * H
+        nch = 2 * n * WH
+        choice = np.zeros(n + 1, np.int64)
+        grid = np.zeros((n, W, H), np.int8)
+        cnt = np.zeros(n, np.int64)
+        area = np.zeros(n, np.int64)
+        sky = np.zeros(n, np.int64)
+        exp = np.zeros(7, np.int64)
+        got = np.zeros(7, np.int64)
+        got2 = np.zeros(7, np.int64)
+        used = np.zeros(n + 2, np.int64)
+        for o in range(7):
+            for kk in range(n + 1):
+                mins[o, kk] = -1
+                maxs[o, kk] = -1
+        depth = 0
+        choice[0] = 0
+        while depth >= 0:
+            if depth == n:
+                # a complete placement: bins contiguous?
+                for b in range(n + 2):
+                    used[b] = 0
+                k = 0
+                for i in range(n):
+                    used[y[i, 1]] = 1
+                    if y[i, 1] > k:
+                        k = y[i, 1]
+                okb = True
+                for b in range(1, k + 1):
+                    if used[b] == 0:
+                        okb = False
+                if okb:
+                    res[0] += 1
+                    omodel(y, n, k, W, H, grid, cnt, area, sky, exp)
+                    tmp_e.fill(111)
+                    tmp_s.fill(-7)
+                    eval_real(y, W, H, tmp_e, tmp_s, got)
+                    res[1] += 7
+                    for o in range(7):
+                        if got[o] != exp[o]:
+                            if res[2] == 0:
+                                res[5] = o
+                                res[6] = got[o]
+                                res[7] = exp[o]
+                                for i in range(n):
+                                    for j in range(6):
+                                        bad[i, j] = y[i, j]
+                            res[2] += 1
+                        v = got[o]
+                        if mins[o, k] < 0 or v < mins[o, k]:
+                            mins[o, k] = v
+                        if maxs[o, k] < 0 or v > maxs[o, k]:
+                            maxs[o, k] = v
+                    # other row orders: all rotations and the reversal
+                    for r in range(1, n + 1):
+                        for i in range(n):
+                            src = (i + r) % n if r < n else n - 1 - i
+                            for j in range(6):
+                                y2[i, j] = y[src, j]
+                        eval_real(y2, W, H, tmp_e, tmp_s, got2)
+                        res[1] += 7
+                        for o in range(7):
+                            if got2[o] != exp[o]:
+                                if res[4] == 0 and res[2] == 0:
+                                    res[5] = o
+                                    res[6] = got2[o]
+                                    res[7] = exp[o]
+                                    for i in range(n):
+                                        for j in range(6):
+                                            bad[i, j] = y2[i, j]
+                                res[4] += 1
+                    if res[3] < store.shape[0]:
+                        for i in range(n):
+                            for j in range(6):
+                                store[res[3], i, j] = y[i, j]
+                        res[3] += 1
+                    else:
+                        res[9] = 1
+                depth -= 1
+                continue
+            c = choice[depth]
+            if c >= nch:
+                depth -= 1
+                continue
+            choice[depth] = c + 1
+            res[8] += 1
+            t = seq[depth]
+            orient = c // (n * WH)
+            b = (c // WH) % n + 1
+            x0 = (c // H) % W
+            y0 = c % H
+            w = inst64[t, 0]
+            h = inst64[t, 1]
+            if orient == 1:
+                if w == h:
+                    continue
+                w, h = h, w
+            if x0 + w > W or y0 + h > H:
+                continue
+            # identical items: canonical order of choices
+            if depth > 0 and seq[depth - 1] == t \
+                    and c <= choice[depth - 1] - 1:
+                continue
+            if b > depth + 1:
+                continue  # bin ids cannot exceed the number of items so far
+            ok = True
+            for i in range(depth):
+                if y[i, 1] == b and y[i, 2] < x0 + w and x0 < y[i, 4] \
+                        and y[i, 3] < y0 + h and y0 < y[i, 5]:
+                    ok = False
+                    break
+            if not ok:
+                continue
+            y[depth, 0] = t + 1
+            y[depth, 1] = b
+            y[depth, 2] = x0
+            y[depth, 3] = y0
+            y[depth, 4] = x0 + w
+            y[depth, 5] = y0 + h
+            depth += 1
+            choice[depth] = 0
+    _GEN.update(gen_packings=gen_packings, eval_real=eval_real)
+    return _GEN
+
+
+def all_packings(W, H, rows, cap=200000):
+    """Enumerate all feasible packings; compare objectives on each."""
+    g = gen_drivers()
+    inst = make_instance(W, H, rows)
+    arr = np.asarray(inst)
+    n = inst.n_items
+    seq = np.array([v - 1 for v in inst.get_standard_item_sequence()],
+                   np.int64)
+    y = np.zeros((n, 6), arr.dtype)
+    y2 = np.zeros((n, 6), arr.dtype)
+    tmp_e = np.zeros(n, arr.dtype)
+    tmp_s = np.zeros(n, np.int64)
+    mins = np.zeros((7, n + 1), np.int64)
+    maxs = np.zeros((7, n + 1), np.int64)
+    res = np.zeros(16, np.int64)
+    store = np.zeros((cap, n, 6), arr.dtype)
+    bad = np.zeros((n, 6), np.int64)
+    g["gen_packings"](arr.astype(np.int64), W, H, seq, y, y2, tmp_e, tmp_s,
+                      mins, maxs, res, store, bad)
+    return inst, res, mins, maxs, store[:res[3]], bad
